@@ -17,6 +17,7 @@ import (
 	"fmt"
 	"regexp"
 	"sort"
+	"strconv"
 	"strings"
 	"testing"
 
@@ -86,6 +87,17 @@ func generatedPackages(thorough bool) []pkgDoc {
 		}
 		return sc
 	})
+	// and, whatever was drawn, a table whose cells span rows and columns at once: A spans two rows, B two columns,
+	// C (pushed right by A) two rows and two columns
+	cellP := func(s string) []wpmodel.Para {
+		return []wpmodel.Para{{wpmodel.Run{Items: []wpmodel.Inline{{Kind: wpmodel.KText, Text: s}}}}}
+	}
+	wp.Blocks = append(wp.Blocks, wpmodel.Block{Kind: wpmodel.BTable, Table: &wpmodel.Table{Rows: 3, Cols: 3, Cells: []wpmodel.Cell{
+		{R: 0, C: 0, RS: 2, CS: 1, Paras: cellP("A")}, {R: 0, C: 1, RS: 1, CS: 2, Paras: cellP("B")},
+		{R: 1, C: 1, RS: 2, CS: 2, Paras: cellP("C")}, {R: 2, C: 0, RS: 1, CS: 1, Paras: cellP("E")}}}})
+	if err := wp.Validate(); err != nil {
+		panic("INFRA: the explicit span table is not a valid table: " + err.Error())
+	}
 	if ms, err := docxw.Parts(wp, docxw.Options{AlwaysStyles: true, AlwaysNumbering: true, Settings: true, SectPr: true, TableStyle: true}); err == nil {
 		out = append(out, pkgDoc{"generated.docx", ".docx", fromWP(ms)})
 	}
@@ -218,6 +230,15 @@ func pkgFaults(d pkgDoc, stride int, emit emitFn) {
 			switch {
 			case reNumber.MatchString(val):
 				hs = []string{"0", "-1", "2147483648", "1048577", "9223372036854775807", "", "1e9", "NaN"}
+				if v, err := strconv.Atoi(val); err == nil && v >= 0 && v < 100 {
+					// small counts, spans and levels: the neighbours and a few other small numbers (a span reaching
+					// just past the table, a level one too deep)
+					for _, c := range []int{v - 1, v + 1, 2, 3, 5, 9} {
+						if c >= 0 && c != v {
+							hs = append(hs, strconv.Itoa(c))
+						}
+					}
+				}
 			case reCellRef.MatchString(val):
 				hs = []string{"XFD1048576", "A0", "A99999999999999999999", "ZZZZZZZZZZ1", "", "1A", "A-1"}
 			case reRange.MatchString(val):
